@@ -847,10 +847,32 @@ fn op_collect(cx: &Cx) {
             wd.err("C12", "nested_collection_ran", format!("nested_collect_not_noop:{}", wd.stack_sig()), format!("collect_cycles() called from a callback of a running collection ran {} callbacks and moved executions_count by {} (stack {})", wd.coll_cb_events.get() - ev0, exec1 - exec0, wd.stack_sig()));
         }
     } else {
-        if !cx.is_top() {
-            bump(&wd.stats.nested_real_collects);
-        }
         oracle::check_exec_count(wd, "collect_cycles");
+        if !cx.is_top() && res.is_some() && !wd.failed() {
+            // a collection requested from a callback that runs outside any collection (under a plain drop or a
+            // clean()): it is a real collection, and C02 applies to it as to any other. Repeat until quiet, then compare.
+            bump(&wd.stats.nested_real_collects);
+            if !wd.nested_quiet.get() {
+                let _r = Restore(&wd.nested_quiet, false);
+                wd.nested_quiet.set(true);
+                let mut rounds = 0;
+                loop {
+                    let before = (wd.fin_events.get(), wd.drop_events.get());
+                    op_collect(cx);
+                    rounds += 1;
+                    if wd.failed() {
+                        return;
+                    }
+                    if before == (wd.fin_events.get(), wd.drop_events.get()) {
+                        oracle::after_collect_quiet(wd);
+                        break;
+                    }
+                    if rounds >= 16 {
+                        break;
+                    }
+                }
+            }
+        }
     }
 }
 
